@@ -4,6 +4,10 @@ compose_comp — end-to-end correspondence of the COMPOSED turn model (`lean/Cle
 
     COMPONENTS = [ComposeTurn(), ComposeHistory()]          (names `compose.turn`, `compose.hist`)
 
+Gates opened in shares of the worlds (the v1 shares stay): the three caches (50 %), GEL incl. the merge/split/promotion block
+(35 %), the scheduler with logical slice budgets (30 %), the T2 hybrid reranker over the GEL store (60 % of GEL worlds) and
+fusion + MMR (25 %), configured planner thresholds (40 %).
+
 A case = a small world (1-3 active graphs with labelled nodes and weighted edges, node ids shared between graphs;
 0-8 episodes of several owners embedded with the repo's deterministic adapter), a validated config (stage caches /
 GEL / reflection / scheduler / perf gate / T2 quality layers OFF; in half of the cases the three caches — T1 result
@@ -26,8 +30,11 @@ repaired defect the model follows: `proposed_fixes/C13_cfg_snapshot_passes_polic
 monitors (Lean, on the REAL turn): link.t1, link.query, link.bundle, link.plan, link.rag, link.line, link.handoff,
         link.version (each glue link: the model's link function applied to what the real upstream stage produced equals
         what the real downstream stage received) and c03.envelope, c11.hits, c12.budget, c13.plan (the per-stage Lean
-        monitors of those packages on the real records);  (Python) records.turn_agent / streams / rollup / apply_version,
-        line.budget, cache.hit_justified / size / invalidation, replay.real_deterministic (the same history replayed
+        monitors of those packages on the real records), c17.yield (C17's decision table on the real boundary counters),
+        link.t2stats, and C18's gel.mon monitors c18.canon / bounded / handoff_topk / obs_spec / tick_spec on the real
+        state.graph before/after observe and tick;  (Python) records.turn_agent / streams / rollup / apply_version,
+        line.budget, cache.hit_justified / size / invalidation, gel.order / handoff / tick_args / maintenance, quality.query,
+        hybrid.handoff / called, records.hybrid, replay.real_deterministic (the same history replayed
         on a freshly built world gives identical records, lines and state — C01 on the real engine).
 """
 from __future__ import annotations
@@ -49,13 +56,17 @@ REL = {"supports": 0, "associates": 1, "contradicts": 2}
 WORDS = ["apple", "Banana", "fruit", "car", "bike", "pie", "zebra", "tree", "app", "fruit pie"]
 NODE_IDS = ["n1", "n2", "n10", "n3", "N4", "n5", "n6", "a:b", "z"]
 TIERS = ["exact_semantic", "cluster_semantic", "archive"]
-MONITORS = ["link.t1", "link.query", "link.bundle", "link.plan", "link.rag", "link.line", "link.handoff", "link.version",
+MONITORS = ["c17.yield", "link.t1", "link.query", "link.t2stats", "link.bundle", "link.plan", "link.rag", "link.line", "link.handoff", "link.version",
             "c03.envelope", "c11.hits", "c12.budget", "c13.plan"]
 
 ASSUMPTIONS = [
-    "composed turn (compose.turn / compose.hist): GEL (graph.enabled), reflection, scheduler, perf/metrics gate, T2 quality+hybrid "
-    "layers, LLM backend, node attrs.tags and the boot snapshot loader are OFF / absent; ctx.now is a fixed string; the world "
-    "(graphs, memory index, config, agent) does not change during a history",
+    "composed turn (compose.turn / compose.hist): reflection, the perf/metrics gate, the LLM backend, node attrs.tags and the boot "
+    "snapshot loader are OFF / absent; ctx.now is a fixed string; the world (graphs, memory index, config, agent) does not change "
+    "during a history.  In shares of the worlds GEL (graph.enabled: observe on all T2 hits, tick and merge/split/promotion before "
+    "Apply; merge_candidates/split_candidates are oracles as in C18), the scheduler (scheduler.enabled with LOGICAL slice budgets: "
+    "wall_ms / quantum_ms are huge and the model takes the measured elapsed time as 0 ms), and the T2 rerank layers (hybrid over the "
+    "GEL store of the state; fusion with BM25 scores and MMR with token sets as oracles, as in C11) are ON",
+    "hybrid worlds keep the process-global T2 stage cache off (its key ignores the GEL store the reranker reads: C05's finding t2:state)",
     "caches ON: no TTL expiry and no capacity eviction inside a history (defaults 300 s / 600 s / 512 entries vs. at most 4 turns); "
     "the process-global T2 stage cache is transparent in such a world (its hit returns what the stage recomputes) and is only "
     "reflected in the record constants cache_enabled / cache_used / cache_misses",
@@ -72,7 +83,8 @@ TRUSTED = [
 
 # what the composed model mirrors (for the integrator: merge into C01's MODELLED)
 MODELLED = {
-    "clematis/engine/orchestrator/core.py": ["Orchestrator.run_turn"],
+    "clematis/engine/orchestrator/core.py": ["Orchestrator.run_turn", "_derive_budgets", "_should_yield", "_m5_enabled"],
+    "clematis/engine/stages/t2/quality.py": ["apply_quality"],
     "clematis/engine/stages/t2/state.py": ["gather_changed_labels", "build_label_map"],
     "clematis/engine/stages/t3/bundle.py": ["extract_t1_touched_nodes", "extract_labels_from_t1", "assemble_bundle",
                                             "cfg_snapshot", "cfg_caps"],
@@ -170,6 +182,8 @@ def gen_case(rng: random.Random, i: int, max_turns: int) -> dict:
     graphs = [_gen_graph(rng, gid) for gid in ["g:surface", "g:b", "g:c"][:ng]]
     eps = _gen_eps(rng, rng.choice([0, 1, 2, 3, 4, 5, 6, 8, 8]), agent)
     tiers = list(TIERS) if rng.random() < 0.6 else rng.sample(TIERS, rng.choice([1, 2, 3]))
+    gel_world = False
+    repeat_p = 0.4
     cfg = {
         "t1": {"cache": {"enabled": False}, "queue_budget": rng.choice([300, 300, 40, 3, 1, 5]),
                "radius_cap": rng.choice([4, 4, 1, 2]), "iter_cap": rng.choice([50, 50, 1, 2]),
@@ -196,11 +210,90 @@ def gen_case(rng: random.Random, i: int, max_turns: int) -> dict:
         cfg["t3"]["policy"] = {k: v for k, v in (("tau_high", rng.choice([0.8, 0.5, 0.2, 0.05])),
                                                  ("tau_low", rng.choice([0.4, 0.1, 0.05, 0.0])),
                                                  ("epsilon_edit", rng.choice([0.1, 0.1, 0.0]))) if rng.random() < 0.8}
+    if rng.random() < 0.35:
+        # GEL on: observe (all T2 hits) + tick (+ merge/split/promotion block) run inside the turn
+        maint = rng.random() < 0.5
+        cfg["graph"] = {
+            "enabled": True,
+            "coactivation_threshold": rng.choice([0.0, 0.0, 0.02, 0.1, 0.3]),
+            "observe_top_k": rng.choice([1, 2, 3, 3, 64]),
+            "pair_cap_per_obs": rng.choice([1, 2, 2048, 2048]),
+            "update": {"mode": rng.choice(["additive", "proportional"]), "alpha": rng.choice([0.3, 0.02, 0.6]),
+                       "clamp_min": -1.0, "clamp_max": rng.choice([1.0, 0.5])},
+            "decay": {"half_life_turns": rng.choice([1, 2, 200]), "floor": rng.choice([0.0, 0.0, 0.05, 0.2])},
+        }
+        if maint:
+            cfg["graph"]["merge"] = {"enabled": rng.random() < 0.8, "min_size": rng.choice([2, 2, 3]), "min_avg_w": rng.choice([0.01, 0.2]),
+                                     "max_diameter": rng.choice([1, 2]), "cap_per_turn": rng.choice([1, 1, 4])}
+            cfg["graph"]["split"] = {"enabled": rng.random() < 0.5, "weak_edge_thresh": rng.choice([0.05, 0.3]),
+                                     "min_component_size": rng.choice([1, 2]), "cap_per_turn": rng.choice([1, 4])}
+            cfg["graph"]["promotion"] = {"enabled": rng.random() < 0.6, "label_mode": rng.choice(["lexmin", "concat_k"]),
+                                         "topk_label_ids": rng.choice([1, 2, 3]), "attach_weight": rng.choice([0.5, 1.0, -0.3]),
+                                         "cap_per_turn": rng.choice([1, 2])}
+        cfg["t2"]["sim_threshold"] = rng.choice([-1.0, -1.0, 0.0])     # several hits per turn: pairs to co-activate
+        cfg["t2"]["k_retrieval"] = rng.choice([3, 4, 8, 10])
+        if rng.random() < 0.7:
+            cfg["t2"]["owner_scope"] = "any"
+        if len(eps) < 4:
+            eps = _gen_eps(rng, rng.choice([4, 5, 6, 8]), agent)
+        gel_world = True
+    if rng.random() < 0.3:
+        # scheduler on with LOGICAL slice budgets (huge wall/quantum: the clock never decides)
+        cfg["scheduler"] = {"enabled": True, "policy": rng.choice(["round_robin", "fair_queue"]), "quantum_ms": 10 ** 8,
+                            "budgets": {"t1_pops": rng.choice([None, None, 0, 1, 2, 3, 5]),
+                                        "t1_iters": rng.choice([None, 0, 1, 1, 2, 50]),
+                                        "t2_k": rng.choice([None, 0, 1, 2, 3, 3, 64]),
+                                        "t3_ops": rng.choice([None, 1, 1, 2, 3]), "wall_ms": 10 ** 9}}
+    quality_world = False
+    if rng.random() < (0.6 if gel_world else 0.15):
+        # T2 hybrid rerank over the GEL store of the state (edges written by earlier turns' observations)
+        quality_world = True
+        cfg["t2"]["hybrid"] = {"enabled": True, "use_graph": rng.random() < 0.93, "anchor_top_m": rng.choice([1, 2, 2, 3, 8]),
+                               "walk_hops": rng.choice([1, 1, 2, 2]), "edge_threshold": rng.choice([0.0, 0.1, 0.1, 0.5]),
+                               "lambda_graph": rng.choice([0.25, 1.0, 1.0, 0.5]), "damping": rng.choice([0.0, 0.5, 1.0]),
+                               "degree_norm": rng.choice(["none", "none", "invdeg"]), "max_bonus": rng.choice([0.5, 0.5, 0.1, 2.0]),
+                               "k_max": rng.choice([1, 2, 3, 128, 128, 128])}
+        if gel_world and rng.random() < 0.7:
+            # make the graph evidence count: edges that survive the decay and pass the reranker's threshold
+            cfg["graph"]["decay"] = {"half_life_turns": 200, "floor": 0.0}
+            cfg["graph"]["update"]["alpha"] = rng.choice([0.3, 0.6])
+            cfg["graph"]["coactivation_threshold"] = 0.0
+            cfg["graph"]["observe_top_k"] = 64
+            cfg["t2"]["hybrid"]["edge_threshold"] = rng.choice([0.0, 0.1])
+            cfg["t2"]["hybrid"]["k_max"] = rng.choice([3, 128, 128])
+            repeat_p = 0.75
+    if rng.random() < 0.25:
+        # fusion (BM25 oracle) + MMR (token-set oracle)
+        quality_world = True
+        cfg["t2"]["quality"] = {"enabled": True, "shadow": False,
+                                "lexical": {"bm25_k1": 1.2, "bm25_b": 0.75, "stopwords": rng.choice(["en-basic", "en-basic", "none"])},
+                                "fusion": {"mode": "score_interp", "alpha_semantic": rng.choice([0.0, 0.6, 0.6, 1.0, 0.25])},
+                                "mmr": {"enabled": rng.random() < 0.6, "lambda": rng.choice([0.0, 0.5, 0.5, 1.0, 0.3]),
+                                        "k": rng.choice([None, None, 1, 2, 3])}}
+    refl_flag = None
+    if rng.random() < 0.25:
+        # reflection tail: gate (allow + stashed planner flag), summary over the utterance + T2 snippets, ops cap.
+        # The written episodes are owned by the agent; retrieval is scoped to "world", so they stay invisible to T2.
+        if agent == "world":
+            agent = "A"
+        cfg["t2"]["owner_scope"] = "world"
+        cfg["t3"]["allow_reflection"] = rng.random() < 0.85
+        cfg["t3"]["reflection"] = {"backend": "rulebased", "summary_tokens": rng.choice([128, 128, 8, 3, 0]),
+                                   "topk_snippets": rng.choice([3, 3, 1, 0]), "embed": rng.random() < 0.6, "log": True}
+        sc = cfg.setdefault("scheduler", {"enabled": False})
+        sc.setdefault("budgets", {})
+        sc["budgets"]["ops_reflection"] = rng.choice([5, 5, 1, 0, None])
+        sc["budgets"]["time_ms_reflection"] = 10 ** 8
+        refl_flag = rng.random() < 0.85
+        if rng.random() < 0.3:
+            cfg["t4"]["enabled"] = False      # the kill-switch bypass reaches the tail too (also in a dry run)
     caches = rng.random() < 0.5
     if caches:
         # v2: T1 result cache, T2 stage cache and the orchestrator's CacheManager ON (validator defaults for sizes/TTLs)
         cfg["t1"]["cache"] = {"enabled": True}
-        cfg["t2"]["cache"] = {"enabled": True}
+        # (the T2 stage cache key ignores the GEL store the hybrid reranker reads — C05's finding `t2:state`:
+        #  it stays off in worlds where the reranker is on)
+        cfg["t2"]["cache"] = {"enabled": not cfg["t2"].get("hybrid", {}).get("enabled", False)}
         cfg["t4"]["cache"] = {"enabled": True}
         cfg["t4"]["cache_bust_mode"] = rng.choice(["none", "on-apply", "on-apply"])
     meta = None
@@ -220,14 +313,23 @@ def gen_case(rng: random.Random, i: int, max_turns: int) -> dict:
             if rng.random() < 0.5 and hot["deltas"]:
                 # the same targets again (weights accumulate in the store over the history; clamp at +-1)
                 hook["deltas"] = copy.deepcopy(hot["deltas"]) + hook["deltas"][:1]
-        text = turns[-1]["text"] if (turns and rng.random() < 0.4) else _gen_text(rng)   # repeats: cache hits
-        turns.append({"text": text, "turn_id": first + t, "dry": rng.random() < (0.25 if caches else 0.07), "hook": hook})
+        text = turns[-1]["text"] if (turns and rng.random() < repeat_p) else _gen_text(rng)   # repeats: cache hits
+        turns.append({"text": text, "turn_id": first + t, "dry": rng.random() < (0.25 if (caches or refl_flag is not None) else 0.07), "hook": hook})
     # some memories repeat a turn's text (cosine 1.0 when T1 appends no label): high-evidence plans
-    for e in eps:
-        if rng.random() < 0.3:
+    if gel_world and turns and turns[0]["text"].strip():
+        # a few visible memories close to the first turn's text: positive cosines, pairs to co-activate, edges for the
+        # hybrid reranker in later turns
+        base = turns[0]["text"].strip()
+        for e in eps[: rng.choice([2, 3, 3, 4])]:
+            e["text"] = base if rng.random() < 0.6 else base + " " + rng.choice(WORDS)
+            e["owner"] = agent
+            e["has_vec"] = True
+            e["ts"] = "2025-08-30T00:00:00Z"
+    for e in (eps[4:] if gel_world else eps):
+        if rng.random() < (0.6 if gel_world else 0.3):
             e["text"] = rng.choice(turns)["text"].strip() or e["text"]
     return {"agent": agent, "graphs": graphs, "eps": eps, "cfg": cfg, "meta": meta, "turns": turns,
-            "k_surface": 32, "caches": caches}
+            "k_surface": 32, "caches": caches, "refl_flag": refl_flag}
 
 
 # ------------------------------------------------------------------------------------------------
@@ -236,6 +338,10 @@ def gen_case(rng: random.Random, i: int, max_turns: int) -> dict:
 
 def _c11():
     return importlib.import_module("harness.props.c11")
+
+
+def _c18():
+    return importlib.import_module("harness.props.c18")
 
 
 def _ep_c11(case: dict, e: dict, enc) -> dict:
@@ -296,6 +402,7 @@ def _recorders(rec: dict, hook: Optional[dict], world):
     real_t1 = getattr(orch, "t1_propagate", ocore.t1_propagate)
 
     def t1_rec(ctx, state, text):
+        rec["seq"].append("t1")
         r = real_t1(ctx, state, text)
         rec["deltaIds"] = [str(d.get("id")) for d in r.graph_deltas]
         rec["t1"] = {"pops": int(r.metrics.get("pops", 0)), "iters": int(r.metrics.get("iters", 0)),
@@ -307,6 +414,7 @@ def _recorders(rec: dict, hook: Optional[dict], world):
     real_t2 = getattr(orch, "t2_semantic", ocore.t2_semantic)
 
     def t2_rec(ctx, state, text, t1):
+        rec["seq"].append("t2")
         r = real_t2(ctx, state, text, t1)
         if rec["hits"] is None and rec["nodeIds"] is None:
             # the T2 stage itself (the plan bundle is not built yet); later calls come from rag_once's _retrieve_fn
@@ -365,6 +473,7 @@ def _recorders(rec: dict, hook: Optional[dict], world):
     real_t4 = ocore.t4_filter
 
     def t4_rec(ctx, state, t1, t2, plan, utter):
+        rec["seq"].append("t4")
         r = real_t4(ctx, state, t1, t2, plan, utter)
         rec["t4"] = {"deltas": [_delta_json(d) for d in (getattr(plan, "deltas", []) or [])],
                      "ops": [str(getattr(o, "kind", "") or "") for o in (getattr(plan, "ops", []) or [])],
@@ -374,10 +483,97 @@ def _recorders(rec: dict, hook: Optional[dict], world):
 
     patch(ocore, "t4_filter", t4_rec)
 
+    import clematis.engine.stages.t2.quality_ops as qops
+    real_bm25 = qops._bm25_scores
+
+    def bm25_rec(query, items, *a, **k):
+        out = real_bm25(query, items, *a, **k)
+        try:
+            rec["lex"][str(query)] = {str(i): f2b(float(v)) for i, v in out[0].items()}
+        except Exception:
+            pass
+        return out
+
+    patch(qops, "_bm25_scores", bm25_rec)
+
+    import clematis.engine.stages.t2.quality as qual
+    real_rr, real_aq = qual.rerank_with_gel, t2core._apply_quality
+
+    def rr_rec(ctx, state, items):
+        out = real_rr(ctx, state, items)
+        hm = out[1] if isinstance(out[1], dict) else {}
+        rec["hyb_calls"].append({"same_state": state is world.state,
+                                 "info": {k: hm[k] for k in ("anchor_top_m", "walk_hops", "edge_threshold", "lambda_graph", "damping",
+                                                             "degree_norm", "k_max", "k_considered", "k_reordered") if k in hm},
+                                 "used": bool(hm.get("hybrid_used", False)),
+                                 "hin": [str(getattr(r, "id", None)) for r in items],
+                                 "hout": [str(getattr(r, "id", None)) for r in out[0]]})
+        return out
+
+    def aq_rec(ctx, state, retrieved, q_text, cfg_root, cfg_t2):
+        rec["aq_q"].append(str(q_text))
+        return real_aq(ctx, state, retrieved, q_text, cfg_root, cfg_t2)
+
+    patch(qual, "rerank_with_gel", rr_rec)
+    patch(t2core, "_apply_quality", aq_rec)
+
+    rmod = importlib.import_module("clematis.engine.stages.t3.reflect")
+    real_reflect = rmod.reflect
+
+    def reflect_rec(bundle, cfg, embedder=None):
+        rec["seq"].append("reflect")
+        rec["refl"] = {"utter": str(getattr(bundle, "utter", "")), "snippets": [str(x) for x in (getattr(bundle, "snippets", []) or [])]}
+        r = real_reflect(bundle, cfg, embedder=embedder)
+        rec["refl"]["summary"] = str(getattr(r, "summary", ""))
+        rec["refl"]["entries"] = [str(e.get("text", "")) if isinstance(e, dict) else str(e) for e in (getattr(r, "memory_entries", []) or [])]
+        return r
+
+    patch(rmod, "reflect", reflect_rec)
+
+    c18 = importlib.import_module("harness.props.c18")
+    real_obs, real_tick = ocore.gel_observe, ocore.gel_tick
+    real_mc, real_sc = ocore.gel_merge_candidates, ocore.gel_split_candidates
+
+    def obs_rec(ctx, state, items, *a, **k):
+        its = list(items)
+        rec["seq"].append("gel_observe")
+        g = {"pre": c18.snap(state), "turn": k.get("turn"), "agent": k.get("agent"),
+             "items": [[str(getattr(h, "id", None)), f2b(float(getattr(h, "score", 0.0)))] for h in its]}
+        r = real_obs(ctx, state, its, *a, **k)
+        g["post"] = c18.snap(state)
+        g["out"] = {kk: r.get(kk) for kk in ("k_in", "k_used", "pairs_updated")}
+        rec["gel_obs"] = g
+        return r
+
+    def tick_rec(ctx, state, *a, **k):
+        rec["seq"].append("gel_tick")
+        g = {"pre": c18.snap(state), "turn": k.get("turn"), "dt": k.get("decay_dt")}
+        r = real_tick(ctx, state, *a, **k)
+        g["post"] = c18.snap(state)
+        g["out"] = {"decayed": r.get("decayed_edges"), "dropped": r.get("dropped_edges")}
+        rec["gel_tick"] = g
+        return r
+
+    def mc_rec(ctx, state):
+        r = real_mc(ctx, state)
+        rec["merges"] = [dict(c18.merge_rec(x), avg_w=f2b(float(x.get("avg_w", 0.0)))) for x in r]
+        return r
+
+    def sc_rec(ctx, state):
+        r = real_sc(ctx, state)
+        rec["splits"] = [c18.split_rec(x) for x in r]
+        return r
+
+    patch(ocore, "gel_observe", obs_rec)
+    patch(ocore, "gel_tick", tick_rec)
+    patch(ocore, "gel_merge_candidates", mc_rec)
+    patch(ocore, "gel_split_candidates", sc_rec)
+
     store = world.store
     real_apply = store.apply_deltas
 
     def store_rec(graph_id, deltas):
+        rec["seq"].append("store")
         rec["calls"].append([_delta_json(d) for d in deltas])
         rec["graphIds"].append(str(graph_id))
         return real_apply(graph_id, deltas)
@@ -414,7 +610,8 @@ def build_world(scratch, case: dict):
         "cfg": copy.deepcopy(case["cfg"]), "agent": case["agent"], "now": NOW, "now_ms": 0, "boot_loaded": True,
         "graph": {"nodes": [], "edges": []},
         "episodes": [c11._ep_dict(e) for e in eps11],
-        "state_extra": ({"meta": copy.deepcopy(case["meta"])} if case.get("meta") is not None else {}),
+        "state_extra": dict(({"meta": copy.deepcopy(case["meta"])} if case.get("meta") is not None else {}),
+                            **({"_planner_reflection_flag": True} if case.get("refl_flag") else {})),
     }
     w = TR.build_world(scratch, spec)
     st = w.store
@@ -439,10 +636,12 @@ def run_real(scratch, case: dict) -> dict:
     enc = BGEAdapter(dim=int(cfgp.get("k_surface", 32)))
     t2c = cfgp.get("t2", {})
     out_turns = []
+    lex_seen: Dict[str, dict] = {}
     for t in case["turns"]:
         rec: Dict[str, Any] = {"q": [], "deltaIds": [], "t1": {"pops": 0, "iters": 0, "props": 0}, "hits": None,
                                "kUsed": 0, "residual": [], "scores": [], "nodeIds": None, "sMax": f2b(0.0),
-                               "ops0": None, "ops": None, "t4": None, "calls": [], "graphIds": [], "hits2": None, "stage_called": False}
+                               "ops0": None, "ops": None, "t4": None, "calls": [], "graphIds": [], "hits2": None, "stage_called": False, "seq": [], "gel_obs": None,
+                               "gel_tick": None, "merges": [], "splits": [], "lex": {}, "hyb_calls": [], "aq_q": [], "refl": None}
         w.spec["ctx_extra"] = {"_dry_run_until_t4": True} if t.get("dry") else {}
         ver_before = w.state.get("version_etag")
         with _recorders(rec, t.get("hook"), w):
@@ -453,20 +652,40 @@ def run_real(scratch, case: dict) -> dict:
             qv = enc.encode([q])[0]
             case11 = _case11(case, cfgp, eps11)
             req = c11.build_request(case11, lambda raw, qv=qv: float(mindex._cosine(qv, _np().frombuffer(raw, dtype=_np().float32))), {})
-            queries.append({"q": q, "cos": [e["cos"] for e in req["eps"]], "cscore": req["cfg"]["cscore"]})
+            # (a T2 stage-cache hit serves the result without calling BM25 again: the scores measured for this query
+            #  text earlier in the history are the oracle — the memory index does not change)
+            lex_seen.update(rec["lex"])
+            queries.append({"q": q, "cos": [e["cos"] for e in req["eps"]], "cscore": req["cfg"]["cscore"],
+                            "lex": [[k, v] for k, v in (lex_seen.get(q) or {}).items()]})
+            rec.setdefault("_h", req["h"])
+            rec.setdefault("_q", req["q"])
             rec.setdefault("_eps_req", req["eps"])
             rec.setdefault("_nowUs", req["cfg"]["nowUs"])
         if "_eps_req" not in rec:
             req = c11.build_request(_case11(case, cfgp, eps11), lambda raw: 0.0, {})
             rec["_eps_req"], rec["_nowUs"] = req["eps"], req["cfg"]["nowUs"]
+            rec["_h"], rec["_q"] = req["h"], req["q"]
         out_turns.append({
             "raised": run.raised, "line": (run.result or {}).get("line"),
             "logs": {s: run.logs.get(s, []) for s in STREAMS},
             "t3_plan": run.logs.get("t3_plan", []),
             "state": {"w": run.state.get("store_w"), "version": run.state.get("version_etag")},
+            "gelLogs": run.logs.get("gel", []), "gel": _c18().snap(w.state),
+            "schedLogs": _sched_logs(run),
+            "reflLogs": run.logs.get("t3_reflection", []), "memN": (run.state.get("mem_n") or 0) - len(case["eps"]),
             "verBefore": ver_before, "rec": rec, "queries": queries,
         })
     return {"turns": out_turns, "cfg_plain": cfgp, "snap": f"state_{w.agent}.json"}
+
+
+def _sched_logs(run) -> List[dict]:
+    out = []
+    for r in run.logs.get("scheduler", []):
+        r = dict(r)
+        if isinstance(r.get("consumed"), dict):
+            r["consumed"] = {k: v for k, v in r["consumed"].items() if k != "ms"}   # measured elapsed time
+        out.append(r)
+    return out
 
 
 def run_real_plain(scratch, case: dict) -> List[dict]:
@@ -478,12 +697,15 @@ def run_real_plain(scratch, case: dict) -> List[dict]:
         hook = t.get("hook")
         with _recorders({"q": [], "deltaIds": [], "t1": {}, "hits": None, "kUsed": 0, "residual": [], "scores": [],
                          "nodeIds": None, "sMax": f2b(0.0), "ops0": None, "ops": None, "t4": None, "calls": [],
-                         "graphIds": [], "hits2": None, "stage_called": False}, hook, w) if hook is not None \
+                         "graphIds": [], "hits2": None, "stage_called": False, "seq": [], "gel_obs": None,
+                         "gel_tick": None, "merges": [], "splits": [], "lex": {}, "hyb_calls": [], "aq_q": [], "refl": None}, hook, w) if hook is not None \
                 else contextlib.nullcontext():
             run = TR.run_turn(w, t["text"], t["turn_id"])
         out.append({"raised": run.raised, "line": (run.result or {}).get("line"),
                     "logs": {s: run.logs.get(s, []) for s in STREAMS},
-                    "state": {"w": run.state.get("store_w"), "version": run.state.get("version_etag")}})
+                    "state": {"w": run.state.get("store_w"), "version": run.state.get("version_etag")},
+                    "gelLogs": run.logs.get("gel", []), "gel": _c18().snap(w.state), "schedLogs": _sched_logs(run),
+                    "reflLogs": run.logs.get("t3_reflection", []), "memN": (run.state.get("mem_n") or 0) - len(case["eps"])})
     return out
 
 
@@ -495,6 +717,8 @@ def _np():
 def _case11(case: dict, cfgp: dict, eps11: List[dict]) -> dict:
     t2 = cfgp.get("t2", {})
     rk = t2.get("ranking", {}) or {}
+    hy = t2.get("hybrid", {}) or {}
+    ql = t2.get("quality", {}) or {}
     return {
         "now": NOW, "scope": str(t2.get("owner_scope", "any")), "agent": case["agent"],
         "k": int(t2.get("k_retrieval", 64)), "theta": f2b(float(t2.get("sim_threshold", 0.3))),
@@ -503,11 +727,18 @@ def _case11(case: dict, cfgp: dict, eps11: List[dict]) -> dict:
         "rank": [f2b(float(rk.get("alpha_sim", 0.75))), f2b(float(rk.get("beta_recency", 0.2))),
                  f2b(float(rk.get("gamma_importance", 0.05)))],
         "eps": eps11,
-        "hyb": {"enabled": False, "use_graph": False, "anchor_top_m": 1, "walk_hops": 1, "edge_threshold": f2b(0.0),
-                "lambda_graph": f2b(0.0), "damping": f2b(0.0), "degree_norm": "none", "max_bonus": f2b(0.0), "k_max": 1},
+        "hyb": {"enabled": bool(hy.get("enabled", False)), "use_graph": bool(hy.get("use_graph", True)),
+                "anchor_top_m": int(hy.get("anchor_top_m", 8)), "walk_hops": int(hy.get("walk_hops", 1)),
+                "edge_threshold": f2b(float(hy.get("edge_threshold", 0.10))), "lambda_graph": f2b(float(hy.get("lambda_graph", 0.25))),
+                "damping": f2b(float(hy.get("damping", 0.50))), "degree_norm": str(hy.get("degree_norm", "none")),
+                "max_bonus": f2b(float(hy.get("max_bonus", 0.50))), "k_max": int(hy.get("k_max", 128))},
         "edges": [],
-        "q": {"enabled": False, "mode": "score_interp", "alpha_semantic": f2b(0.6), "mmr_enabled": False,
-              "mmr_lambda": f2b(0.5), "mmr_k": None, "stopwords": "en-basic"},
+        "q": {"enabled": bool(ql.get("enabled", False)), "mode": str((ql.get("fusion") or {}).get("mode", "score_interp")),
+              "alpha_semantic": f2b(float((ql.get("fusion") or {}).get("alpha_semantic", 0.6))),
+              "mmr_enabled": bool((ql.get("mmr") or {}).get("enabled", False)),
+              "mmr_lambda": f2b(float((ql.get("mmr") or {}).get("lambda", 0.5))),
+              "mmr_k": ((ql.get("mmr") or {}).get("k") if isinstance((ql.get("mmr") or {}).get("k"), int) else None),
+              "stopwords": str((ql.get("lexical") or {}).get("stopwords", "en-basic"))},
         "faults": {"hybrid": False, "fuse": False, "mmr1": False, "mmr2": False},
         "t2k": None, "cap": int(t2.get("residual_cap_per_turn", 32)), "graphs": [], "active": [],
     }
@@ -549,6 +780,7 @@ def build_request(case: dict, real: dict, route: str) -> dict:
     from clematis.engine.stages.t3 import policy as pol
     cfgp = real["cfg_plain"]
     t2, t3, t4 = cfgp.get("t2", {}), cfgp.get("t3", {}), cfgp.get("t4", {})
+    graph = cfgp.get("graph") or {}
     rk = t2.get("ranking", {}) or {}
     scope_raw = str(t2.get("owner_scope", "any"))
     scope_l = scope_raw.lower()
@@ -560,7 +792,7 @@ def build_request(case: dict, real: dict, route: str) -> dict:
     world = {
         "graphs": [{"gid": g["gid"], "nodes": [[n[0], n[1] if n[1] else None] for n in g["nodes"]],
                     "edges": [[e[1], e[2], e[3], REL[e[4]]] for e in g["edges"]]} for g in case["graphs"]],
-        "eps": eps_req, "last": last, "agent": case["agent"],
+        "eps": eps_req, "last": last, "agent": case["agent"], "reflFlag": bool(case.get("refl_flag")),
     }
     cfg = {
         "t1": _t1_cfg_json(cfgp),
@@ -588,6 +820,17 @@ def build_request(case: dict, real: dict, route: str) -> dict:
         "t2CacheOn": bool((t2.get("cache", {}) or {}).get("enabled", True)),
         "orchCacheOn": bool((t4.get("cache", {}) or {}).get("enabled", True)),
         "bust": str(t4.get("cache_bust_mode") or "none") == "on-apply",
+        "gel": _c18().model_cfg_json(_c18().model_of(graph)),
+        "doMerge": bool((graph.get("merge") or {}).get("enabled", False)),
+        "doSplit": bool((graph.get("split") or {}).get("enabled", False)),
+        "doPromo": bool((graph.get("promotion") or {}).get("enabled", False)),
+        "capMerge": int((graph.get("merge") or {}).get("cap_per_turn", 4)),
+        "capSplit": int((graph.get("split") or {}).get("cap_per_turn", 4)),
+        "capPromo": int((graph.get("promotion") or {}).get("cap_per_turn", 2)),
+        "sched": _derive_budgets(cfgp),
+        "refl": _refl_cfg(cfgp),
+        "hyb": dict(first.get("_h") or {}, edges=[], fail=False),
+        "qual": dict(first.get("_q") or {}, lex=[], failFuse=False, failMmr1=False, failMmr2=False),
     }
     turns = []
     for t, rt in zip(case["turns"], real["turns"]):
@@ -595,12 +838,53 @@ def build_request(case: dict, real: dict, route: str) -> dict:
         turns.append({
             "text": t["text"], "turnId": int(t["turn_id"]), "dryRun": bool(t.get("dry")), "ctxText": "",
             "hook": hook is not None, "hookOps": (hook or {}).get("ops", []), "hookDeltas": (hook or {}).get("deltas", []),
-            "orc": {"queries": rt["queries"], "nowUs": rt["rec"].get("_nowUs", 0)},
+            "orc": {"queries": rt["queries"], "nowUs": rt["rec"].get("_nowUs", 0),
+                    "merges": rt["rec"].get("merges", []), "splits": rt["rec"].get("splits", [])},
         })
     # canonical records are captured AFTER the repo's identity normalisation (CI=true), which drops `now` from every
     # stream (C16_normalize_now_dropped): the expected records carry no `now`
-    echo = {"agent": case["agent"], "now": None, "nowIso": None, "owner_scope": scope_l, "snapName": real["snap"]}
+    echo = {"agent": case["agent"], "now": None, "nowIso": None, "owner_scope": scope_l, "snapName": real["snap"],
+            "gelMode": str((graph.get("update") or {}).get("mode", "additive")), "gelNow": NOW,
+            "policy": str((cfgp.get("scheduler") or {}).get("policy", "round_robin")),
+            "degreeNorm": str((t2.get("hybrid") or {}).get("degree_norm", "none"))}
     return {"c": route, "world": world, "cfg": cfg, "state": {"w": [], "ver": 0}, "turns": turns, "echo": echo}
+
+
+def _ystage(rt: dict) -> Optional[str]:
+    """stage_end of the scheduler event of a yielded real turn (None: the turn ran to the end)"""
+    sl = rt.get("schedLogs") or []
+    return str(sl[0].get("stage_end")) if sl else None
+
+
+def _yrank(st: Optional[str]) -> int:
+    return {"T1": 0, "T2": 1, "T3": 2, "T4": 3, "Apply": 4}.get(st, 5) if st is not None else 5
+
+
+def _derive_budgets(cfgp: dict) -> Optional[dict]:
+    """`_derive_budgets(ctx)` of the orchestrator, when `scheduler.enabled` (the model's `Cfg.sched`)"""
+    sc = cfgp.get("scheduler") or {}
+    if not sc.get("enabled"):
+        return None
+    b = sc.get("budgets") or {}
+    out = {k: (None if b.get(k) is None else int(b.get(k))) for k in ("t1_pops", "t1_iters", "t2_k", "t3_ops", "wall_ms")}
+    out["quantum_ms"] = int(sc.get("quantum_ms", 20))
+    return out
+
+
+def _refl_cfg(cfgp: dict) -> dict:
+    """C19's `Clem.Refl.Cfg` of a validated configuration"""
+    t3 = cfgp.get("t3", {}) or {}
+    rf = t3.get("reflection", {}) or {}
+    b = (cfgp.get("scheduler") or {}).get("budgets") or {}
+    def oi(v):
+        try:
+            return None if v is None else int(v)
+        except Exception:
+            return None
+    return {"allow": bool(t3.get("allow_reflection", False)), "backend": str(rf.get("backend", "rulebased")),
+            "topk": int(rf.get("topk_snippets", 3)), "limit": int(rf.get("summary_tokens", 128)),
+            "embed": bool(rf.get("embed", True)), "opsCap": oi(b.get("ops_reflection")), "wallMs": oi(b.get("time_ms_reflection")),
+            "fxEnabled": False, "fxPathOk": False}
 
 
 def _obs(rt: dict, committed: bool) -> dict:
@@ -618,7 +902,11 @@ def _obs(rt: dict, committed: bool) -> dict:
         "approvedKeys": [_ckey(d) + "=" + d[3] for d in (t4 or {}).get("approved", [])],
         "calls": [[_ckey(d) + "=" + d[3] for d in b] for b in rec["calls"]],
         "committed": committed, "verBefore": vb, "verAfter": va, "t1": rec["t1"],
-        "orchHit": not rec["stage_called"],
+        "orchHit": (not rec["stage_called"]) and _yrank(_ystage(rt)) >= 1,
+        "yielded": ([rt["schedLogs"][0].get("stage_end"), rt["schedLogs"][0].get("reason")] if rt.get("schedLogs") else None),
+        "kUsedStage": ((rt["logs"].get("t2") or [{}])[0].get("k_used") if rt["logs"].get("t2") else None),
+        "simMeanRec": f2b(float((((rt["logs"].get("t2") or [{}])[0].get("sim_stats")) or {}).get("mean", 0.0))),
+        "simMaxRec": f2b(float((((rt["logs"].get("t2") or [{}])[0].get("sim_stats")) or {}).get("max", 0.0))),
         "snapshot": (rt["logs"]["apply"][0].get("snapshot") is not None) if rt["logs"].get("apply") else None,
     }
 
@@ -701,7 +989,9 @@ class _Compose(Component):
                            "ops": t["rec"]["ops"], "approved": (t["rec"]["t4"] or {}).get("approved", []),
                            "rejected": (t["rec"]["t4"] or {}).get("rejected", []),
                            "storeCalls": t["rec"]["calls"], "graphIds": t["rec"]["graphIds"],
-                           "t2Calls": len(t["rec"]["q"]), "t3_plan": t["t3_plan"]} for t in real["turns"]]}
+                           "hits": (t["rec"]["hits"] if t["rec"]["stage_called"] else None),
+                           "t2Calls": len(t["rec"]["q"]), "t3_plan": t["t3_plan"],
+                           "gelLogs": t["gelLogs"], "gel": t["gel"], "schedLogs": t["schedLogs"], "reflLogs": t["reflLogs"], "memN": t["memN"]} for t in real["turns"]]}
 
     @_wrap
     def request(self, case: dict) -> dict:
@@ -730,6 +1020,22 @@ class _Compose(Component):
                       "rejected": b["rejected"], "storeCalls": b["storeCalls"], "t2Calls": b["t2Calls"],
                       "w": sorted(b["state"]["w"], key=lambda p: p[0]), "version": b["state"]["version"]}
             mine["w"] = sorted(mine["w"], key=lambda p: p[0])
+            if a.get("hits") is not None and b.get("t2Ran", True) and not b.get("orchHit"):
+                # the retrieved list of the T2 stage: ids, owners, scores and texts in the final (reranked) order
+                mine["hits"] = a["hits"]
+                theirs["hits"] = b["hits"]
+            mine["gelLogs"] = _canon(a["gelLogs"])
+            theirs["gelLogs"] = b["logs"].get("gel", [])
+            mine["reflLogs"] = _canon(a["reflLogs"])
+            theirs["reflLogs"] = b["logs"].get("t3_reflection", [])
+            mine["memN"] = a["memN"]
+            theirs["memN"] = b.get("memN")
+            mine["schedLogs"] = _canon(a["schedLogs"])
+            theirs["schedLogs"] = b["logs"].get("scheduler", [])
+            theirs["logs"] = {k: v for k, v in b["logs"].items() if k not in ("gel", "scheduler", "t3_reflection")}
+            c18 = _c18()
+            mine["gel"] = c18.canon_state(a["gel"])
+            theirs["gel"] = c18.canon_state(b.get("gel"))
             if mine != theirs:
                 return f"turn {i}: " + first_diff(_canon(mine), _canon(theirs))
             for g in a["graphIds"]:
@@ -757,17 +1063,81 @@ class _Compose(Component):
         for i, (t, rt) in enumerate(zip(case["turns"], real["turns"])):
             if rt["raised"]:
                 continue
-            committed = t4on and not t.get("dry")
+            yk = _yrank(_ystage(rt))
+            committed = t4on and not t.get("dry") and yk >= 4
             ob = _obs(rt, committed)
             for m in MONITORS:
-                if m in ("link.bundle", "c13.plan", "link.plan", "link.rag") and rt["rec"]["nodeIds"] is None:
+                if m == "link.query" and yk == 0:
+                    continue   # yielded after T1: T2 never ran
+                if m in ("link.bundle", "c13.plan", "link.plan", "link.rag", "link.t2stats") and rt["rec"]["nodeIds"] is None:
                     continue   # T3 did not run (dry-run compute phase / T3 gate): no bundle was built
                 if m == "c11.hits" and not rt["rec"]["stage_called"]:
                     continue   # served by the orchestrator's cache: the stage did not run this turn
                 r = dict(base)
                 r.update({"which": m, "turn": i, "obs": ob})
                 out.append((m, r))
+        out.extend(self._gel_monitor_requests(case, real))
+        out.extend(self._refl_monitor_requests(case, real))
         return out
+
+    def _refl_monitor_requests(self, case, real) -> List[Tuple[str, dict]]:
+        """C19's Lean monitors (routes refl.mon.*) on what the REAL turns did: gate, ops cap, summary length."""
+        if case.get("refl_flag") is None:
+            return []
+        rc = _refl_cfg(real["cfg_plain"])
+        t4on = bool(real["cfg_plain"].get("t4", {}).get("enabled", True))
+        out = []
+        prev = 0
+        for i, (t, rt) in enumerate(zip(case["turns"], real["turns"])):
+            if rt["raised"]:
+                continue
+            rf = rt["rec"]["refl"]
+            tj = {"agent": case["agent"], "turn": str(t["turn_id"]), "nowMs": 0, "iso": None, "dry": bool(t.get("dry")),
+                  "t4on": t4on, "plan": False, "sflag": bool(case.get("refl_flag")), "cfg": rc,
+                  "utter": (rf or {}).get("utter", ""), "items": (rf or {}).get("snippets", []), "arts": []}
+            oj = {"mode": "real", "adapter": None, "elapsedUs": 0, "runFault": False, "indexMissing": False,
+                  "writeFault": False, "addFail": [], "logFault": False}
+            body = {"t": tj, "o": oj, "called": rf is not None, "nWritten": max(0, rt["memN"] - prev),
+                    "logged": bool(rt["reflLogs"]), "texts": ([rf["summary"]] if rf and "summary" in rf else []), "real": True}
+            prev = rt["memN"]
+            for m in ("gate", "cap", "len"):
+                out.append((f"c19.{m}", dict(body, c=f"refl.mon.{m}")))
+        return out
+
+    def _gel_monitor_requests(self, case, real) -> List[Tuple[str, dict]]:
+        """C18's Lean monitors (route gel.mon) on what the REAL turns did to state.graph."""
+        graph = real["cfg_plain"].get("graph") or {}
+        if not graph.get("enabled"):
+            return []
+        c18 = _c18()
+        cj = c18.model_cfg_json(c18.model_of(graph))
+        el = c18.GelComp._edges_for_lean
+        finals, top, obs, ticks = [], [], [], []
+        for rt in real["turns"]:
+            if rt["raised"]:
+                continue
+            rec = rt["rec"]
+            finals.append(el(rt["gel"]))
+            go, gt = rec["gel_obs"], rec["gel_tick"]
+            if go is not None:
+                obs.append({"pre": el(go["pre"]), "post": el(go["post"]), "items": go["items"], **go["out"]})
+                if rec["stage_called"] and rec["hits"] is not None:
+                    # the hand-off: pairs come from the top-k by score among ALL hits T2 returned
+                    top.append({"pre": el(go["pre"]), "post": el(go["post"]),
+                                "items": [[h["id"], h["score"]] for h in rec["hits"]]})
+            if gt is not None:
+                ticks.append({"pre": el(gt["pre"]), "post": el(gt["post"]), "dt": 1,
+                              "decayed": gt["out"]["decayed"], "dropped": gt["out"]["dropped"]})
+        promo = bool((graph.get("promotion") or {}).get("enabled", False))
+        rq = [("c18.canon", {"c": "gel.mon", "kind": "canon", "cfg": cj, "states": finals}),
+              ("c18.bounded", {"c": "gel.mon", "kind": "bounded_coact" if promo else "bounded", "cfg": cj, "states": finals})]
+        if top:
+            rq.append(("c18.handoff_topk", {"c": "gel.mon", "kind": "obstop", "cfg": cj, "steps": top}))
+        if obs:
+            rq.append(("c18.obs_spec", {"c": "gel.mon", "kind": "obs", "cfg": cj, "steps": obs}))
+        if ticks:
+            rq.append(("c18.tick_spec", {"c": "gel.mon", "kind": "tick", "cfg": cj, "steps": ticks}))
+        return rq
 
     @_wrap
     def monitors(self, case, impl_out):
@@ -778,15 +1148,120 @@ class _Compose(Component):
         t4c = real["cfg_plain"].get("t4", {})
         t4on = bool(t4c.get("enabled", True))
         orch_on = bool((t4c.get("cache", {}) or {}).get("enabled", True))
+        sched_on = bool((real["cfg_plain"].get("scheduler") or {}).get("enabled", False))
         bust = str(t4c.get("cache_bust_mode") or "none") == "on-apply"
         # C01 on the real engine: the same (world, config, turn list) replayed on a fresh world gives the same
         # canonical records, lines and state
         again = real.get("again")
         if isinstance(again, list):
-            first = [{"raised": t["raised"], "line": t["line"], "logs": t["logs"], "state": t["state"]} for t in real["turns"]]
+            first = [{"raised": t["raised"], "line": t["line"], "logs": t["logs"], "state": t["state"],
+                      "gelLogs": t["gelLogs"], "gel": t["gel"], "schedLogs": t["schedLogs"], "reflLogs": t["reflLogs"], "memN": t["memN"]} for t in real["turns"]]
             same = _canon(first) == _canon(again)
             res.append(("replay.real_deterministic", same,
                         "replaying the history on a fresh world differs: " + ("" if same else first_diff(_canon(first), _canon(again)))))
+        gel_on = bool((real["cfg_plain"].get("graph") or {}).get("enabled", False))
+        for i, (t, rt) in enumerate(zip(case["turns"], real["turns"])):
+            if rt["raised"]:
+                continue
+            rec, seq = rt["rec"], rt["rec"]["seq"]
+            ykg = _yrank(_ystage(rt))
+            want_obs = gel_on and not t.get("dry") and ykg >= 2
+            want_tick = gel_on and t4on and not t.get("dry") and ykg >= 4
+            ok = (("gel_observe" in seq) == want_obs) and (("gel_tick" in seq) == want_tick)
+            if ok and want_obs:
+                io = seq.index("gel_observe")
+                # (served by the orchestrator's cache: the only t2 calls are rag_once's, after the observation)
+                ok = (not rec["stage_called"] or seq.index("t2") < io) and ("t4" not in seq or io < seq.index("t4"))
+            if ok and want_tick:
+                it = seq.index("gel_tick")
+                ok = seq.index("t4") < it and ("store" not in seq or it < seq.index("store"))
+            res.append(("gel.order", ok, f"turn {i}: call order {seq} (graph.enabled={gel_on}, t4={t4on}, dry={bool(t.get('dry'))})"))
+            go = rec["gel_obs"]
+            if go is not None:
+                okh = go["turn"] == int(t["turn_id"]) and go["agent"] == case["agent"]
+                if rec["stage_called"] and rec["hits"] is not None:
+                    okh = okh and go["items"] == [[h["id"], h["score"]] for h in rec["hits"]]
+                res.append(("gel.handoff", okh, f"turn {i}: observe got {go['items']} turn={go['turn']} agent={go['agent']}; "
+                                                 f"T2 returned {[[h['id'], h['score']] for h in (rec['hits'] or [])]}"))
+            mrecs = [r for r in rt["gelLogs"] if "merge_attempts" in r]
+            if gel_on:
+                gcfg = real["cfg_plain"].get("graph") or {}
+                dm, ds, dp = (bool((gcfg.get(k) or {}).get("enabled", False)) for k in ("merge", "split", "promotion"))
+                want_m = want_tick and (dm or ds or dp)
+                okm = len(mrecs) == (1 if want_m else 0)
+                why = f"{len(mrecs)} maintenance records"
+                if okm and want_m:
+                    cm_, cs_, cp_ = (int((gcfg.get(k) or {}).get("cap_per_turn", d)) for k, d in (("merge", 4), ("split", 4), ("promotion", 2)))
+                    merges = rec["merges"] if dm else []
+                    splits = rec["splits"] if ds else []
+                    clusters = [m for m in merges if m["nodes"]] if dp else []     # promotions derive from the merge candidates
+                    exp = {"merge_attempts": len(merges), "merge_applied": len(merges[:cm_]), "split_attempts": len(splits),
+                           "split_applied": len(splits[:cs_]), "promotion_applied": len(clusters[:cp_])}
+                    got = {k: mrecs[0].get(k) for k in exp}
+                    gm = (rt["gel"] or {}).get("merges") or []
+                    tail = gm[len(gm) - exp["merge_applied"]:] if exp["merge_applied"] else []
+                    okm = got == exp and [m["sig"] for m in tail] == [m["sig"] for m in merges[:cm_]]
+                    why = f"maintenance record {got}, candidates/caps give {exp}; merges stored {[m['sig'] for m in tail]}"
+                res.append(("gel.maintenance", okm, f"turn {i}: {why}"))
+            gt = rec["gel_tick"]
+            if gt is not None:
+                res.append(("gel.tick_args", gt["turn"] == int(t["turn_id"]) and gt["dt"] == 1,
+                            f"turn {i}: tick(decay_dt={gt['dt']}, turn={gt['turn']})"))
+        hyb_on = bool((real["cfg_plain"].get("t2", {}).get("hybrid") or {}).get("enabled", False))
+        kmax = int((real["cfg_plain"].get("t2", {}).get("hybrid") or {}).get("k_max", 128))
+        for i, rt in enumerate(real["turns"]):
+            if rt["raised"]:
+                continue
+            rec = rt["rec"]
+            # the rerank layers are handed the query text T2 embedded, the engine's own state, and only reorder
+            # (hybrid: first item fixed, only the first k_max may move)
+            # (a T2 stage-cache hit returns before the layers run: fewer calls than embeddings)
+            okq = set(rec["aq_q"]) <= set(rec["q"]) and set(rec["lex"]) <= set(rec["q"]) and rec["aq_q"][:1] == rec["q"][:1][:len(rec["aq_q"])]
+            if (real["cfg_plain"].get("t2", {}).get("quality") or {}).get("enabled"):
+                res.append(("quality.query", okq, f"turn {i}: apply_quality/BM25 got {rec['aq_q']} / {sorted(rec['lex'])}, T2 embedded {rec['q']}"))
+            for hc in rec["hyb_calls"]:
+                okh = hc["same_state"] and sorted(hc["hin"]) == sorted(hc["hout"]) and hc["hin"][:1] == hc["hout"][:1] \
+                    and hc["hin"][max(kmax, 0):] == hc["hout"][max(kmax, 0):]
+                res.append(("hybrid.handoff", okh, f"turn {i}: rerank_with_gel state-is-engine-state={hc['same_state']} in={hc['hin']} out={hc['hout']} k_max={kmax}"))
+            l2 = (rt["logs"].get("t2") or [None])[0]
+            if rec["stage_called"] and l2 is not None and rec["hyb_calls"]:
+                hc0 = rec["hyb_calls"][0]
+                okr = (l2.get("hybrid") or {}) == hc0["info"] and bool(l2.get("hybrid_used")) == hc0["used"]
+                res.append(("records.hybrid", okr, f"turn {i}: t2 record hybrid={l2.get('hybrid')} hybrid_used={l2.get('hybrid_used')}; reranker reported {hc0['info']} used={hc0['used']}"))
+            if rec["stage_called"]:
+                res.append(("hybrid.called", (len(rec["hyb_calls"]) >= 1) == hyb_on, f"turn {i}: {len(rec['hyb_calls'])} rerank calls, hybrid.enabled={hyb_on}"))
+        if case.get("refl_flag") is not None:
+            topk = int((real["cfg_plain"].get("t3", {}).get("reflection") or {}).get("topk_snippets", 3))
+            prevn = 0
+            for i, (t, rt) in enumerate(zip(case["turns"], real["turns"])):
+                if rt["raised"]:
+                    continue
+                rec, rf = rt["rec"], rt["rec"]["refl"]
+                yk_ = _yrank(_ystage(rt))
+                # the tail is only reached by a turn that runs to the end; what it hands to `reflect` is this turn's
+                # utterance and the texts of the first topk hits T2 returned; the index grows by what the record says
+                ok = not (rf is not None and (yk_ < 5 or (t.get("dry") and t4on)))
+                why = "reflect called in a turn that returned early"
+                allow = bool(real["cfg_plain"].get("t3", {}).get("allow_reflection", False))
+                if ok and rf is None and allow and case.get("refl_flag") and not t.get("dry") and yk_ == 5:
+                    ok, why = False, "allowed, requested (stashed planner flag), turn ran to the end — but reflect was not called"
+                if ok and rf is not None:
+                    exp_sn = [h["text"] for h in (rec["hits"] or []) if h["text"]][: max(topk, 0)] if rec["stage_called"] else rf["snippets"]
+                    # (`reflect` cuts the snippets to topk itself: only the first topk are observable)
+                    ok = rf["utter"] == (rt["line"] if rec["ops"] else "") and rf["snippets"][: max(topk, 0)] == exp_sn
+                    why = f"reflect got utter={rf['utter']!r} snippets={rf['snippets']}; turn line={rt['line']!r}, T2 texts={exp_sn}"
+                if ok:
+                    wrote = rt["memN"] - prevn
+                    logged = (rt["reflLogs"] or [{}])[0].get("ops_written", 0) if rt["reflLogs"] else 0
+                    # (`ops_written` of the record is the number of entries `reflect` produced; the write step applies
+                    #  the ops cap on top — C19's `logOf` / `writeEntries`)
+                    capv = ((real["cfg_plain"].get("scheduler") or {}).get("budgets") or {}).get("ops_reflection")
+                    capn = max(0, int(capv)) if capv is not None else 0
+                    expw = min(len((rf or {}).get("entries", [])), capn) if rf is not None else 0
+                    ok = 0 <= wrote <= logged and wrote == expw
+                    why = f"memory index grew by {wrote} (reflect produced {len((rf or {}).get('entries', []))}, ops cap {capv}), t3_reflection says ops_written={logged}"
+                prevn = rt["memN"]
+                res.append(("reflect.handoff", ok, f"turn {i}: {why}"))
         seen_keys: List[Tuple[str, str]] = []     # (version, text) pairs the orchestrator cache holds
         for i, (t, a, rt) in enumerate(zip(case["turns"], impl_out.get("turns", []), real["turns"])):
             if orch_on and not a["raised"] and a["logs"].get("t2"):
@@ -815,9 +1290,10 @@ class _Compose(Component):
             bad = [(s, r) for s in STREAMS for r in lg.get(s, [])
                    if r.get("turn") != t["turn_id"] or r.get("agent") != case["agent"]]
             res.append(("records.turn_agent", not bad, f"turn {i}: record of another turn/agent: {bad[:1]}"))
-            committed = t4on and not t.get("dry")
-            want = {"t1": 1, "t2": 1, "t4": 1 if t4on else 0, "apply": 1 if committed else 0,
-                    "turn": 0 if (t.get("dry") and t4on) else 1}
+            yk = _yrank(_ystage(rt))
+            committed = t4on and not t.get("dry") and yk >= 4
+            want = {"t1": 1, "t2": 1 if yk >= 1 else 0, "t4": 1 if (t4on and yk >= 3) else 0, "apply": 1 if committed else 0,
+                    "turn": 1 if yk < 5 else (0 if (t.get("dry") and t4on) else 1)}
             got = {s: len(lg.get(s, [])) for s in STREAMS}
             res.append(("records.streams", got == want, f"turn {i}: records per stream {got}, expected {want}"))
             if got != want:
@@ -826,13 +1302,14 @@ class _Compose(Component):
             if want["turn"]:
                 tr = lg["turn"][0]
                 exp = {"t1": {k: lg["t1"][0].get(k) for k in ("pops", "iters", "graphs_touched")},
-                       "t2": {"k_returned": lg["t2"][0].get("k_returned"), "k_used": lg["t2"][0].get("k_used"),
-                              "cache_hit": bool(lg["t2"][0].get("cache_hit", False))},
-                       "t4": {"approved": len(a["approved"]), "rejected": len(a["rejected"])}}
+                       "t2": ({"k_returned": lg["t2"][0].get("k_returned"), "k_used": lg["t2"][0].get("k_used"),
+                               "cache_hit": bool(lg["t2"][0].get("cache_hit", False))} if yk >= 1 else {}),
+                       "t4": ({"approved": len(a["approved"]), "rejected": len(a["rejected"])} if yk >= 3 else {}),
+                       "yielded": (True if yk < 5 else None)}
                 gotr = {k: tr.get(k) for k in exp}
                 if gotr != exp:
                     ok, why = False, f"turn record {gotr} vs stage records {exp}"
-            if ok and rec["stage_called"] and lg["t2"][0].get("k_returned") != len(rec["hits"] or []):
+            if ok and yk >= 1 and rec["stage_called"] and lg["t2"][0].get("k_returned") != len(rec["hits"] or []):
                 ok, why = False, "t2.k_returned differs from the number of hits T2 returned"
             if ok and want["t4"] and (lg["t4"][0].get("approved") != len(a["approved"])
                                       or lg["t4"][0].get("rejected") != len(a["rejected"])):
@@ -859,6 +1336,54 @@ class _Compose(Component):
         real = self._run(case)
         if len(case["graphs"]) > 1:
             tg.add("multi_graph")
+        if (real["cfg_plain"].get("graph") or {}).get("enabled"):
+            tg.add("gel_on")
+            for rt in real["turns"]:
+                g = rt["gel"] or {}
+                if g.get("edges"):
+                    tg.add("gel_edges")
+                if g.get("merges"):
+                    tg.add("gel_merge_applied")
+                if g.get("splits"):
+                    tg.add("gel_split_applied")
+                if g.get("nodes"):
+                    tg.add("gel_promotion_applied")
+                gt = rt["rec"]["gel_tick"]
+                if gt and gt["out"]["dropped"]:
+                    tg.add("gel_tick_dropped")
+                go = rt["rec"]["gel_obs"]
+                if go and go["out"]["k_used"] < go["out"]["k_in"]:
+                    tg.add("gel_observe_filtered")
+        if (real["cfg_plain"].get("scheduler") or {}).get("enabled"):
+            tg.add("sched_on")
+            for rt in real["turns"]:
+                st = _ystage(rt)
+                if st is not None:
+                    tg.add("yield_" + st + "_" + str(rt["schedLogs"][0].get("reason")))
+                l2 = (rt["logs"].get("t2") or [{}])[0]
+                if l2 and l2.get("k_used", 0) < l2.get("k_returned", 0):
+                    tg.add("t2_slice_clamped")
+        if case["cfg"]["t2"].get("hybrid", {}).get("enabled"):
+            tg.add("hybrid_on")
+            for rt in real["turns"]:
+                l2 = (rt["logs"].get("t2") or [{}])[0]
+                if l2.get("hybrid_used"):
+                    tg.add("hybrid_used")
+                if (l2.get("hybrid") or {}).get("k_reordered"):
+                    tg.add("hybrid_reordered")
+        if case["cfg"]["t2"].get("quality", {}).get("enabled"):
+            tg.add("quality_on")
+            if case["cfg"]["t2"]["quality"]["mmr"]["enabled"]:
+                tg.add("mmr_on")
+        if case.get("refl_flag") is not None:
+            tg.add("reflection_world")
+            for rt in real["turns"]:
+                if rt["rec"]["refl"] is not None:
+                    tg.add("reflect_called")
+                if rt["reflLogs"]:
+                    tg.add("reflection_logged")
+                    if rt["reflLogs"][0].get("ops_written"):
+                        tg.add("reflection_written")
         if case.get("caches"):
             tg.add("caches_on")
         if case["cfg"].get("t3", {}).get("policy"):
